@@ -3,11 +3,27 @@
 Part A: queue policies against their abstract view (FIFO / LIFO / stable priority).
 Part B: concurrency models (0 <= active <= limit, acquire/release).
 Part C: Queue and QueueDriver handlers against the QueuePolicy interface contract.
+Part D: the policies of components/queue_policies/ (AdaptiveLIFO, RED, Deadline/EDF, Fair) - capacity, conservation
+        over the policy's own counters, order; WeightedFair / CoDel / heap-list scans: bounded stand-in only.
+Part E: Queue.handle_event, QueuedResource.handle_event and the worker adapter (offered once; handed over once).
+Part F: industrial variants: ShiftedServer (three clauses wait for fixes/C08_shifted-server-*.diff, see the source
+        tests SHIFT_*_REPAIRED), BalkingQueue.
 See DESIGN.md section 3-C08 for the clauses and what is not decided.
 """
 from pyvc.spec import *
 
-# (no loop contracts needed so far)
+# ---- loop contracts (must precede the first happysimulator import; the helpers they call are defined in part D) ----
+F_DLQ = "happysimulator/components/queue_policies/deadline_queue.py"
+# DeadlineQueue.pop: `while self._heap:` pops entries until a live one is found.  So far only expired entries were
+# removed, each counted in _expired; nothing was dequeued yet.
+loop(F_DLQ, "DeadlineQueue.pop", 1, modifies=[("DeadlineQueue", "_heap"), ("DeadlineQueue", "_expired")],
+     types={"entry": lambda: DE},
+     inv=[("only-expired-removed", lambda L: _dl_only_expired_removed(L.old(L.self), L.self, L.now)),
+          ("each-removed-counted", lambda L: L.self._expired - L.old(L.self)._expired
+           == slen(L.old(L.self)._heap) - slen(L.self._heap)),
+          ("expired-monotone", lambda L: L.self._expired >= L.old(L.self)._expired),
+          ("no-clock-nothing-expires", lambda L: True if L.now is not None
+           else (L.self._expired == L.old(L.self)._expired) & (slen(L.self._heap) == slen(L.old(L.self)._heap)))])
 from specs.common import *  # noqa: E402,F401
 
 from happysimulator.components.queue_policy import (QueuePolicy, FIFOQueue, LIFOQueue, PriorityQueue,  # noqa: E402
@@ -30,6 +46,21 @@ PROPERTY = {
         "pipeline-level invariants over in-flight engine events (I-work, I-reserve of DESIGN 3-C08) are not "
         "under contract; this check covers the per-policy, per-model and per-handler clauses, and the bounded "
         "stand-in `burst-work-conservation` runs real pipelines on a grid of bursts (open known finding there)",
+        "part D: user-supplied get_deadline / get_flow_id / clock_func callables are arbitrary but side-effect free; "
+        "deadlines and policy clock readings are finite instants",
+        "part D: REDQueue's random.random() is an arbitrary real in [0, 1) (drop DECISIONS of RED / CoDel are not "
+        "under contract, only their bookkeeping)",
+        "part D: OrderedDict of flows is modelled by position stamps (pyvc/omap.py typing: stamps of present keys "
+        "distinct and below the next stamp); FairQueue._total_items == sum of the flow lengths, WeightedFairQueue, "
+        "CoDelQueue and the heap-list scans DeadlineQueue.peek/purge_expired/count_expired are covered only by the "
+        "bounded stand-in `policy-model-differential`",
+        "part E: the wiring queue.egress -> driver -> worker adapter -> resource set up by QueuedResource.__init__ is "
+        "assumed as class invariant (the constructor stores _clock = None, outside the common typing; the wiring is "
+        "checked natively by the bounded stand-in `queued-resource-pipeline`); QueuedResource.handle_queued_event / "
+        "has_capacity of subclasses are arbitrary code; an entity that was never crashed is modelled as _crashed == False",
+        "part F: ShiftSchedule.capacity_at / next_transition_after are used through their interface only "
+        "(next_transition_after returns None or a time strictly after its argument); while a ShiftedServer job is in "
+        "service the unit it added to _active is still counted when it resumes (other jobs add / remove only their own)",
     ],
 }
 
@@ -442,3 +473,759 @@ PROPERTY["bounded"] = [{"name": "burst-work-conservation",
                         "bound": "bursts of k in {1,2,3,5} (thorough: up to 13) requests at one instant x concurrency in {1,2,3} "
                                  "(thorough: up to 7) x hop patterns, constant service time",
                         "fn": _burst_grid}]
+
+
+# ---- bounded stand-in for the policy clauses the deductive part D does not reach (iteration over heap lists in
+# DeadlineQueue.peek/purge_expired/count_expired, the sum of flow lengths of FairQueue, WeightedFairQueue, CoDelQueue)
+def _policy_models(seed, tier):
+    return run_native_script("triage/c08_policies.py", tier)
+
+
+PROPERTY["bounded"].append({"name": "policy-model-differential",
+                            "bound": "30 (thorough: 400) seeded random push/pop/peek/purge/clock sequences of 80 (200) steps per "
+                                     "policy (Deadline, Fair, WeightedFair, AdaptiveLIFO, RED, CoDel) against reference models; "
+                                     "capacities in {inf,1,2,3,5,8}, 4 flows, weights 0..4",
+                            "fn": _policy_models})
+
+
+# ---- bounded stand-in for QueuedResource pipelines: constructor wiring (assumed as class invariant in part E), the
+# partition dropped / waiting / in service / completed-once over whole runs, and ShiftedServer scenarios (part F)
+def _pipelines(seed, tier):
+    return run_native_script("triage/c08_pipeline.py", tier)
+
+
+PROPERTY["bounded"].append({"name": "queued-resource-pipeline",
+                            "bound": "25 (thorough: 300) seeded runs: 3..12 requests at pairwise distinct instants x concurrency "
+                                     "1..3 x FIFO waiting room in {inf,1,2,4} x constant service time, complete and cut runs; "
+                                     "5 ShiftedServer scenarios (those that need the C08 repairs run once the repairs are in)",
+                            "fn": _pipelines})
+
+
+# ============================================================================ D. remaining queue policies
+# Every policy of components/queue_policies/: capacity, conservation `enqueued = dequeued + dropped + held` as a class
+# invariant over the policy's own counters, every offered item accepted or rejected-and-counted exactly once, and the
+# order clause where the policy defines one.  Drop DECISIONS of RED / CoDel are float heuristics (A-float; the random
+# draw of RED is an arbitrary real in [0,1)): only their bookkeeping is under contract.
+from happysimulator.components.queue_policies import adaptive_lifo as _alifo_mod  # noqa: E402
+from happysimulator.components.queue_policies.adaptive_lifo import AdaptiveLIFO  # noqa: E402
+
+
+def _seq_eq(a, b):
+    return mk_bool(a == b)
+
+
+def _app(seq, item):
+    """seq ++ [item] as a raw z3 sequence term"""
+    return z3.Concat(seq, z3.Unit(item.t))
+
+
+def _qseq(o):
+    return seq_term(o._queue)
+
+
+# ---- AdaptiveLIFO: FIFO below the congestion threshold, LIFO at or above it ---------------------------------------
+cls(AdaptiveLIFO, fields={"_congestion_threshold": Int, "_capacity": IntInf, "_queue": Seq(ITEM), "_was_congested": Bool,
+                          "_enqueued": Int, "_dequeued_fifo": Int, "_dequeued_lifo": Int, "_capacity_rejected": Int,
+                          "_mode_switches": Int},
+    const=["_congestion_threshold", "_capacity"],
+    inv=[("capacity-shape", cap_ok), ("threshold-positive", lambda o: o._congestion_threshold >= 1),
+         ("never-above-capacity", lambda o: within(slen(o._queue), o._capacity)),
+         ("conservation", lambda o: o._enqueued == o._dequeued_fifo + o._dequeued_lifo + slen(o._queue)),
+         ("counters-nonneg", lambda o: (o._dequeued_fifo >= 0) & (o._dequeued_lifo >= 0) & (o._capacity_rejected >= 0))])
+
+# (constructors of policies: inv=False because the ghost interface view of QueuePolicy is not theirs to establish; the
+#  clauses below state the initial values, from which every invariant of the class follows)
+ctor(AdaptiveLIFO, args={"congestion_threshold": Int, "capacity": Opt(Int)}, inv=False,
+     ensures=[("empty", lambda s: (slen(s.self._queue) == 0) & (s.self._enqueued == 0) & (s.self._capacity_rejected == 0)
+               & (s.self._dequeued_fifo == 0) & (s.self._dequeued_lifo == 0)
+               & (s.self._congestion_threshold == s.congestion_threshold)),
+              ("capacity-as-given", lambda s: isinstance(s.self._capacity, float) if s.capacity is None
+               else (not isinstance(s.self._capacity, float)) and s.self._capacity == s.capacity)],
+     raises={ValueError: [("only-bad-config", lambda s: (s.congestion_threshold < 1)
+                           | (False if s.capacity is None else s.capacity < 1))]})
+
+fn(AdaptiveLIFO, "push", args={"item": ITEM}, ensures=[
+    ("accepted-iff-room", lambda s: iff(s.result, Not(within_full(s.old(s.self))))),
+    ("accepted-appends", lambda s: implies(s.result, _seq_eq(_qseq(s.self), _app(_qseq(s.old(s.self)), s.item)))),
+    ("rejected-unchanged", lambda s: implies(Not(s.result), _seq_eq(_qseq(s.self), _qseq(s.old(s.self))))),
+    ("accepted-or-rejected-and-counted-once", lambda s:
+        (s.self._enqueued == s.old(s.self)._enqueued + ite(s.result, 1, 0))
+        & (s.self._capacity_rejected == s.old(s.self)._capacity_rejected + ite(s.result, 0, 1))),
+    ("dequeue-counters-untouched", lambda s: unchanged(s, s.self, "_dequeued_fifo", "_dequeued_lifo"))])
+
+
+def _alifo_congested(o):
+    return slen(o._queue) >= o._congestion_threshold
+
+
+fn(AdaptiveLIFO, "pop", ensures=[
+    ("empty-gives-none", lambda s: implies(slen(s.old(s.self)._queue) == 0, (s.result is None) and unchanged(s, s.self))),
+    ("nonempty-gives-item", lambda s: implies(slen(s.old(s.self)._queue) > 0, s.result is not None)),
+    ("congested-returns-newest", lambda s: True if s.result is None else implies(
+        _alifo_congested(s.old(s.self)),
+        _seq_eq(_qseq(s.old(s.self)), _app(_qseq(s.self), s.result)))),
+    ("uncongested-returns-oldest", lambda s: True if s.result is None else implies(
+        Not(_alifo_congested(s.old(s.self))),
+        _seq_eq(_qseq(s.old(s.self)), z3.Concat(z3.Unit(s.result.t), _qseq(s.self))))),
+    ("dequeued-counted-once", lambda s: (s.self._dequeued_fifo + s.self._dequeued_lifo
+        == s.old(s.self)._dequeued_fifo + s.old(s.self)._dequeued_lifo + (0 if s.result is None else 1))
+        & (s.self._dequeued_fifo >= s.old(s.self)._dequeued_fifo) & (s.self._dequeued_lifo >= s.old(s.self)._dequeued_lifo)),
+    ("offer-counters-untouched", lambda s: unchanged(s, s.self, "_enqueued", "_capacity_rejected"))])
+
+fn(AdaptiveLIFO, "peek", ensures=[
+    ("none-iff-empty", lambda s: iff(s.result is None, slen(s.self._queue) == 0)),
+    ("is-what-pop-returns", lambda s: True if s.result is None else mk_bool(
+        z3.If(to_z3_bool(to_b(_alifo_congested(s.self))), _qseq(s.self)[z3.Length(_qseq(s.self)) - 1], _qseq(s.self)[0])
+        == s.result.t)),
+    ("pure", lambda s: unchanged(s, s.self))])
+fn(AdaptiveLIFO, "is_empty", ensures=[("iff-len0", lambda s: iff(s.result, slen(s.self._queue) == 0)),
+                                      ("pure", lambda s: unchanged(s, s.self))])
+fn(AdaptiveLIFO, "__len__", ensures=[("is-len", lambda s: s.result == slen(s.self._queue)),
+                                     ("pure", lambda s: unchanged(s, s.self))])
+
+# ---- REDQueue: FIFO with probabilistic early drop ------------------------------------------------------------------
+from happysimulator.components.queue_policies import red as _red_mod  # noqa: E402
+from happysimulator.components.queue_policies.red import REDQueue  # noqa: E402
+
+
+class _AnyDraw:
+    """stand-in for the `random` module inside red.py while a task runs: random() is an arbitrary real in [0, 1)"""
+
+    @staticmethod
+    def random():
+        r = fresh(Real, "draw")
+        assume((r >= 0) & (r < 1))
+        return r
+
+
+def _draw_env(mod):
+    saved = []
+
+    def setup(s):
+        saved.append(mod.__dict__["random"])
+        mod.__dict__["random"] = _AnyDraw
+        return []
+
+    def teardown(s):
+        while saved:
+            mod.__dict__["random"] = saved.pop()
+    return {"setup": setup, "teardown": teardown}
+
+
+cls(REDQueue, fields={"_min_threshold": Int, "_max_threshold": Int, "_max_probability": Real, "_weight": Real,
+                      "_capacity": Int, "_queue": Seq(ITEM), "_avg_queue": Real, "_count_since_last_drop": Int,
+                      "_enqueued": Int, "_dequeued": Int, "_dropped_probabilistic": Int, "_dropped_forced": Int,
+                      "_capacity_rejected": Int},
+    const=["_min_threshold", "_max_threshold", "_max_probability", "_weight", "_capacity"],
+    inv=[("config", lambda o: (o._min_threshold >= 0) & (o._max_threshold > o._min_threshold) & (o._capacity >= o._max_threshold)
+          & (o._max_probability > 0) & (o._max_probability <= 1) & (o._weight > 0) & (o._weight < 1)),
+         ("never-above-capacity", lambda o: slen(o._queue) <= o._capacity),
+         ("conservation", lambda o: o._enqueued == o._dequeued + slen(o._queue)),
+         ("average-nonneg", lambda o: o._avg_queue >= 0),
+         ("counters-nonneg", lambda o: (o._dequeued >= 0) & (o._dropped_probabilistic >= 0) & (o._dropped_forced >= 0)
+          & (o._capacity_rejected >= 0) & (o._count_since_last_drop >= 0))])
+
+
+def _red_offered(o):
+    return o._enqueued + o._dropped_probabilistic + o._dropped_forced + o._capacity_rejected
+
+
+def _red_full(o):
+    return slen(o._queue) >= o._capacity
+
+
+fn(REDQueue, "push", args={"item": ITEM}, **_draw_env(_red_mod), ensures=[
+    ("offered-once-accepted-or-counted", lambda s: (_red_offered(s.self) == _red_offered(s.old(s.self)) + 1)
+        & (s.self._enqueued == s.old(s.self)._enqueued + ite(s.result, 1, 0))
+        & (s.self._dropped_probabilistic >= s.old(s.self)._dropped_probabilistic)
+        & (s.self._dropped_forced >= s.old(s.self)._dropped_forced)
+        & (s.self._capacity_rejected >= s.old(s.self)._capacity_rejected)),
+    ("full-rejects-and-counts", lambda s: implies(_red_full(s.old(s.self)),
+        Not(s.result) & (s.self._capacity_rejected == s.old(s.self)._capacity_rejected + 1))),
+    ("accepted-appends", lambda s: implies(s.result, _seq_eq(_qseq(s.self), _app(_qseq(s.old(s.self)), s.item)))),
+    ("rejected-unchanged", lambda s: implies(Not(s.result), _seq_eq(_qseq(s.self), _qseq(s.old(s.self))))),
+    ("average-is-ewma-of-length", lambda s: s.self._avg_queue == (1 - s.self._weight) * s.old(s.self)._avg_queue
+        + s.self._weight * slen(s.old(s.self)._queue)),
+    ("no-early-drop-below-min-threshold", lambda s: implies(
+        Not(_red_full(s.old(s.self))) & (s.self._avg_queue < s.self._min_threshold), s.result)),
+    ("forced-drop-at-max-threshold", lambda s: implies(
+        Not(_red_full(s.old(s.self))) & (s.self._avg_queue >= s.self._max_threshold),
+        Not(s.result) & (s.self._dropped_forced == s.old(s.self)._dropped_forced + 1))),
+    ("dequeued-untouched", lambda s: unchanged(s, s.self, "_dequeued"))])
+
+fn(REDQueue, "pop", ensures=[
+    ("empty-gives-none", lambda s: implies(slen(s.old(s.self)._queue) == 0, (s.result is None) and unchanged(s, s.self))),
+    ("returns-oldest", lambda s: implies(slen(s.old(s.self)._queue) > 0, (s.result is not None) and _seq_eq(
+        _qseq(s.old(s.self)), z3.Concat(z3.Unit(s.result.t), _qseq(s.self))))),
+    ("dequeued-counted-once", lambda s: s.self._dequeued == s.old(s.self)._dequeued + (0 if s.result is None else 1)),
+    ("offer-counters-untouched", lambda s: unchanged(s, s.self, "_enqueued", "_dropped_probabilistic", "_dropped_forced",
+                                                     "_capacity_rejected", "_avg_queue", "_count_since_last_drop"))])
+fn(REDQueue, "peek", ensures=[
+    ("none-iff-empty", lambda s: iff(s.result is None, slen(s.self._queue) == 0)),
+    ("is-head", lambda s: True if s.result is None else mk_bool(_qseq(s.self)[0] == s.result.t)),
+    ("pure", lambda s: unchanged(s, s.self))])
+fn(REDQueue, "is_empty", ensures=[("iff-len0", lambda s: iff(s.result, slen(s.self._queue) == 0)),
+                                  ("pure", lambda s: unchanged(s, s.self))])
+fn(REDQueue, "__len__", ensures=[("is-len", lambda s: s.result == slen(s.self._queue)),
+                                 ("pure", lambda s: unchanged(s, s.self))])
+
+# ---- DeadlineQueue: earliest deadline first among the entries that have not expired; expired ones counted -----------
+from happysimulator.components.queue_policies.deadline_queue import DeadlineQueue, _DeadlineEntry  # noqa: E402
+from pyvc import ctx as _pyvc_ctx  # noqa: E402
+
+DE = valueclass("DeadlineEntry", [_DeadlineEntry],
+                [("deadline_ns", Int), ("insert_order", Int), ("item", ITEM), ("deadline", TIME)])
+
+
+def de_lt(a, b):
+    d = DE.dt
+    return z3.Or(d.deadline_ns(a) < d.deadline_ns(b),
+                 z3.And(d.deadline_ns(a) == d.deadline_ns(b), d.insert_order(a) < d.insert_order(b)))
+
+
+DHEAP = Bag(DE, de_lt)
+CLOCKFN = Fn(TIME, "policy_clock")
+cls(DeadlineQueue, fields={"_get_deadline": Fn(TIME, "get_deadline"), "_capacity": IntInf, "_clock_func": Opt(CLOCKFN),
+                           "_heap": DHEAP, "_insert_counter": Int, "_enqueued": Int, "_dequeued": Int, "_expired": Int,
+                           "_capacity_rejected": Int},
+    const=["_get_deadline", "_capacity"],
+    inv=[("capacity-shape", cap_ok),
+         ("never-above-capacity", lambda o: within(slen(o._heap), o._capacity)),
+         ("conservation", lambda o: o._enqueued == o._dequeued + o._expired + slen(o._heap)),
+         ("counters-nonneg", lambda o: (o._dequeued >= 0) & (o._expired >= 0) & (o._capacity_rejected >= 0)),
+         ("entries-well-formed", lambda o: _dl_entries_wf(o))])
+
+
+def _dcnt(o):
+    return DHEAP.dt.cnt(o._heap.term)
+
+
+def _de_expired(x, now):
+    """the policy's own expiry test on a raw entry term: entry.deadline < now (no clock: nothing expires)"""
+    if now is None:
+        return z3.BoolVal(False)
+    return TIME.dt.nanoseconds(DE.dt.deadline(x)) < num(now.nanoseconds)
+
+
+def _dl_entries_wf(o):
+    """every held entry orders by its own deadline and was numbered before the counter"""
+    cnt, n = _dcnt(o), num(o._insert_counter)
+    return forall(Raw(DE.sort()), lambda x: mk_bool(z3.Implies(z3.Select(cnt, x) > 0, z3.And(
+        TIME.dt.nanoseconds(DE.dt.deadline(x)) == DE.dt.deadline_ns(x), DE.dt.insert_order(x) < n))), "dwf")
+
+
+def _dl_only_expired_removed(old, new, now):
+    """pointwise: nothing was added; whatever is missing had expired"""
+    c0, c1 = _dcnt(old), _dcnt(new)
+    return forall(Raw(DE.sort()), lambda x: mk_bool(z3.And(
+        z3.Select(c1, x) <= z3.Select(c0, x), z3.Select(c1, x) >= 0,
+        z3.Implies(z3.Select(c1, x) != z3.Select(c0, x), _de_expired(x, now)))), "dx")
+
+
+def _fn_rets(fn_field_term):
+    """results of the calls of the unknown callable stored in a field, in call order (ghost call log)"""
+    calls = _pyvc_ctx.cur().ghost_args.get("fn_calls", [])
+    return [r for (t, a, k, r) in calls if t.eq(fn_field_term)]
+
+
+def _dl_now(s):
+    """the clock reading the call under check took (None without a clock)"""
+    o = s.old(s.self)
+    if o._clock_func is None:
+        return None
+    rets = _fn_rets(o._clock_func._pyvc_fn_term)
+    if len(rets) != 1:
+        raise SpecError("DeadlineQueue: expected exactly one clock reading on this path")
+    return rets[0]
+
+
+fn(_DeadlineEntry, "__lt__", self_ty=DE, args={"other": DE}, inv=False, ensures=[
+    ("is-the-heap-order", lambda s: iff(s.result, mk_bool(de_lt(DE.unwrap(s.self), DE.unwrap(s.other)))))])
+
+
+def _dl_full(o):
+    c = o._capacity
+    if isinstance(c, float):
+        return False
+    return slen(o._heap) >= c
+
+
+def _dl_added(s):
+    """the bag gained exactly one entry (deadline d, old counter, item) where d is what get_deadline returned"""
+    ds = _fn_rets(s.self._get_deadline._pyvc_fn_term)
+    if len(ds) != 1:
+        return False
+    d = TIME.unwrap(ds[0])
+    e = DE.dt.mk(z3.IntVal(0), TIME.dt.nanoseconds(d), num(s.old(s.self)._insert_counter), s.item.t, d)
+    old, new = _dcnt(s.old(s.self)), _dcnt(s.self)
+    return mk_bool(new == z3.Store(old, e, z3.Select(old, e) + 1))
+
+
+fn(DeadlineQueue, "push", args={"item": ITEM}, ensures=[
+    ("accepted-iff-room", lambda s: iff(s.result, Not(_dl_full(s.old(s.self))))),
+    ("rejected-unchanged-and-counted", lambda s: implies(Not(s.result), mk_bool(s.self._heap.term == s.old(s.self)._heap.term)
+        & (s.self._capacity_rejected == s.old(s.self)._capacity_rejected + 1)
+        & unchanged(s, s.self, "_enqueued", "_insert_counter"))),
+    ("accepted-adds-one-entry-for-item", lambda s: _dl_added(s) if _truthy(s.result) else True),
+    ("accepted-counted-once", lambda s: implies(s.result, (s.self._enqueued == s.old(s.self)._enqueued + 1)
+        & (s.self._insert_counter == s.old(s.self)._insert_counter + 1)
+        & unchanged(s, s.self, "_capacity_rejected"))),
+    ("size", lambda s: slen(s.self._heap) == slen(s.old(s.self)._heap) + ite(s.result, 1, 0)),
+    ("dequeue-counters-untouched", lambda s: unchanged(s, s.self, "_dequeued", "_expired"))])
+
+
+def _truthy(b):
+    """Python-level truth of a result that is concrete on every path of this function"""
+    if isinstance(b, bool):
+        return b
+    t = z3.simplify(to_z3_bool(b))
+    if z3.is_true(t):
+        return True
+    if z3.is_false(t):
+        return False
+    raise SpecError("result is not concrete on this path")
+
+
+def _dl_pop_post(s):
+    """EDF among live entries: the returned item belongs to an entry m of the old bag that has not expired and no live
+    entry of the old bag is below m (equal deadlines: earliest inserted); exactly that occurrence and only expired
+    entries are gone"""
+    now = _dl_now(s)
+    c0, c1 = _dcnt(s.old(s.self)), _dcnt(s.self)
+    if s.result is None:
+        return (slen(s.self._heap) == 0) & forall(Raw(DE.sort()), lambda x: mk_bool(
+            z3.Implies(z3.Select(c0, x) > 0, _de_expired(x, now))), "x")
+    if not popped_any():
+        return False
+    m = last_popped()
+    return (mk_bool(z3.And(z3.Select(c0, m) > 0, DE.dt.item(m) == s.result.t, z3.Not(_de_expired(m, now))))
+            & forall(Raw(DE.sort()), lambda x: mk_bool(z3.Implies(
+                z3.And(z3.Select(c0, x) > 0, z3.Not(_de_expired(x, now))), z3.Not(de_lt(x, m)))), "x")
+            & forall(Raw(DE.sort()), lambda x: mk_bool(z3.Implies(
+                z3.Not(_de_expired(x, now)), z3.Select(c1, x) == z3.Select(c0, x) - z3.If(x == m, 1, 0))), "y")
+            & forall(Raw(DE.sort()), lambda x: mk_bool(z3.Select(c1, x) <= z3.Select(c0, x)), "z"))
+
+
+fn(DeadlineQueue, "pop", ensures=[
+    ("earliest-live-deadline-first", _dl_pop_post),
+    ("dequeued-counted-once", lambda s: s.self._dequeued == s.old(s.self)._dequeued + (0 if s.result is None else 1)),
+    ("every-other-removed-entry-counted-expired", lambda s: s.self._expired - s.old(s.self)._expired
+        == slen(s.old(s.self)._heap) - slen(s.self._heap) - (0 if s.result is None else 1)),
+    ("no-clock-nothing-expires", lambda s: True if s.old(s.self)._clock_func is not None
+        else unchanged(s, s.self, "_expired")),
+    ("offer-counters-untouched", lambda s: unchanged(s, s.self, "_enqueued", "_capacity_rejected", "_insert_counter"))])
+
+fn(DeadlineQueue, "is_empty", ensures=[("iff-len0", lambda s: iff(s.result, slen(s.self._heap) == 0)),
+                                       ("pure", lambda s: unchanged(s, s.self))])
+fn(DeadlineQueue, "__len__", ensures=[("is-len", lambda s: s.result == slen(s.self._heap)),
+                                      ("pure", lambda s: unchanged(s, s.self))])
+
+# ---- FairQueue: round robin over flows (OrderedDict of deques, modelled by pyvc/omap.py: position stamps) -----------
+from happysimulator.components.queue_policies.fair_queue import FairQueue  # noqa: E402
+from pyvc.omap import OMap  # noqa: E402
+
+FLOWS = OMap(Str, Seq(ITEM))
+cls(FairQueue, fields={"_get_flow_id": Fn(Str, "flow_id"), "_max_flows": Opt(Int), "_per_flow_capacity": IntInf,
+                       "_flows": FLOWS, "_total_items": Int, "_enqueued": Int, "_dequeued": Int,
+                       "_rejected_flow_capacity": Int, "_rejected_max_flows": Int, "_flows_created": Int,
+                       "_flows_removed": Int},
+    const=["_get_flow_id", "_max_flows", "_per_flow_capacity"],
+    inv=[("config", lambda o: (True if o._max_flows is None else o._max_flows >= 1)
+          and (True if isinstance(o._per_flow_capacity, float) else o._per_flow_capacity >= 1)),
+         # (that _total_items is the SUM of the flow lengths - hence >= 0 and zero only without flows - is a fact about
+         #  a sum over a symbolic map; it is checked by the bounded stand-in `policy-model-differential`, not here)
+         ("conservation", lambda o: o._enqueued == o._dequeued + o._total_items),
+         ("never-more-flows-than-allowed", lambda o: True if o._max_flows is None else slen(o._flows) <= o._max_flows),
+         # no empty flow is kept (so the head flow always has an item) and no flow exceeds its share of the capacity
+         ("each-flow-nonempty-and-within-its-capacity", lambda o: forall(Str, lambda k: implies(
+             _fl_has(o, k), (_fl_len(o, k) >= 1) & within(_fl_len(o, k), o._per_flow_capacity)), "k")),
+         ("flow-accounting", lambda o: (o._flows_created == o._flows_removed + slen(o._flows)) & (o._flows_removed >= 0)),
+         ("counters-nonneg", lambda o: (o._dequeued >= 0) & (o._rejected_flow_capacity >= 0) & (o._rejected_max_flows >= 0))])
+
+
+def _kt(k):
+    return Str.unwrap(k)
+
+
+def _fl_has(o, k):
+    return mk_bool(z3.Select(FLOWS.dt.dom(o._flows.term), _kt(k)))
+
+
+def _fl_seq(o, k):
+    """raw sequence term of flow k (meaningful only where _fl_has)"""
+    return z3.Select(FLOWS.dt.val(o._flows.term), _kt(k))
+
+
+def _fl_len(o, k):
+    return mk_num(z3.Length(_fl_seq(o, k)))
+
+
+def _fl_pos(o, k):
+    return mk_num(z3.Select(FLOWS.dt.pos(o._flows.term), _kt(k)))
+
+
+def _fl_same_flow(a, b, k):
+    """flow k is the same in both states: presence, content and place in the round"""
+    return iff(_fl_has(a, k), _fl_has(b, k)) & implies(_fl_has(a, k), mk_bool(_fl_seq(a, k) == _fl_seq(b, k))
+                                                       & (_fl_pos(a, k) == _fl_pos(b, k)))
+
+
+def _fq_flow_of_item(s):
+    """the flow id the user function returned for the pushed item (ghost call log)"""
+    r = _fn_rets(s.self._get_flow_id._pyvc_fn_term)
+    if len(r) != 1:
+        raise SpecError("FairQueue.push: expected exactly one call of get_flow_id")
+    return r[0]
+
+
+def _fq_push_accept(s):
+    """accepted exactly when the item's flow exists with room, or can be created"""
+    o, f = s.old(s.self), _fq_flow_of_item(s)
+    at_max = False if o._max_flows is None else slen(o._flows) >= o._max_flows
+    room = Not(within_full_n(_fl_len(o, f), o._per_flow_capacity))
+    return iff(s.result, ite_b(_fl_has(o, f), room, Not(at_max)))
+
+
+def within_full_n(n, cap):
+    if isinstance(cap, float):
+        return False
+    return n >= cap
+
+
+def ite_b(c, a, b):
+    return mk_bool(z3.If(to_z3_bool(to_b(c)), to_z3_bool(to_b(a)), to_z3_bool(to_b(b))))
+
+
+def _fq_push_effect(s):
+    o, n, f = s.old(s.self), s.self, _fq_flow_of_item(s)
+    others = forall(Str, lambda k: implies(mk_bool(_kt(k) != _kt(f)), _fl_same_flow(o, n, k)), "k")
+    if not _truthy(s.result):
+        return others & _fl_same_flow(o, n, f) & (slen(n._flows) == slen(o._flows))
+    old_seq = z3.If(to_z3_bool(_fl_has(o, f)), _fl_seq(o, f), z3.Empty(z3.SeqSort(ITEM.sort())))
+    appended = _fl_has(n, f) & mk_bool(_fl_seq(n, f) == z3.Concat(old_seq, z3.Unit(s.item.t)))
+    # an existing flow keeps its turn; a new flow joins at the back of the round
+    place = implies(_fl_has(o, f), _fl_pos(n, f) == _fl_pos(o, f)) & forall(Str, lambda k: implies(
+        Not(_fl_has(o, f)) & _fl_has(o, k), _fl_pos(n, k) < _fl_pos(n, f)), "j")
+    return others & appended & place
+
+
+fn(FairQueue, "push", args={"item": ITEM}, ensures=[
+    ("accepted-iff-flow-has-room-or-can-be-created", _fq_push_accept),
+    ("appends-to-its-flow-only", _fq_push_effect),
+    ("accepted-or-rejected-and-counted-once", lambda s:
+        (s.self._enqueued == s.old(s.self)._enqueued + ite(s.result, 1, 0))
+        & (s.self._total_items == s.old(s.self)._total_items + ite(s.result, 1, 0))
+        & (s.self._rejected_flow_capacity + s.self._rejected_max_flows
+           == s.old(s.self)._rejected_flow_capacity + s.old(s.self)._rejected_max_flows + ite(s.result, 0, 1))
+        & (s.self._rejected_flow_capacity >= s.old(s.self)._rejected_flow_capacity)
+        & (s.self._rejected_max_flows >= s.old(s.self)._rejected_max_flows)),
+    ("dequeued-untouched", lambda s: unchanged(s, s.self, "_dequeued"))])
+
+
+def _fq_pop_post(s):
+    o, n = s.old(s.self), s.self
+    if s.result is None:
+        return (slen(o._flows) == 0) & unchanged(s, s.self)
+    # w: the flow whose turn it is = least position stamp of the pre-state
+    w = Str.wrap(o._flows._extreme(True))
+    head = mk_bool(_fl_seq(o, w)[0] == s.result.t)
+    rest = z3.Extract(_fl_seq(o, w), 1, z3.Length(_fl_seq(o, w)) - 1)
+    served = ite_b(_fl_len(o, w) == 1, Not(_fl_has(n, w)),
+                   _fl_has(n, w) & mk_bool(_fl_seq(n, w) == rest))
+    to_back = forall(Str, lambda k: implies(_fl_has(n, w) & _fl_has(n, k) & mk_bool(_kt(k) != _kt(w)),
+                                            _fl_pos(n, k) < _fl_pos(n, w)), "j")
+    others = forall(Str, lambda k: implies(mk_bool(_kt(k) != _kt(w)), _fl_same_flow(o, n, k)), "k")
+    return (slen(o._flows) > 0) & head & served & to_back & others
+
+
+fn(FairQueue, "pop", ensures=[
+    ("round-robin-head-of-the-flow-whose-turn-it-is", _fq_pop_post),
+    ("dequeued-counted-once", lambda s: (s.self._dequeued == s.old(s.self)._dequeued + (0 if s.result is None else 1))
+        & (s.self._total_items == s.old(s.self)._total_items - (0 if s.result is None else 1))),
+    ("offer-counters-untouched", lambda s: unchanged(s, s.self, "_enqueued", "_rejected_flow_capacity", "_rejected_max_flows"))])
+
+
+def _fq_peek_post(s):
+    o = s.self
+    if s.result is None:
+        return slen(o._flows) == 0
+    w = Str.wrap(o._flows._extreme(True))
+    return mk_bool(_fl_seq(o, w)[0] == s.result.t)
+
+
+fn(FairQueue, "peek", ensures=[("is-what-pop-returns", _fq_peek_post), ("pure", lambda s: unchanged(s, s.self))])
+fn(FairQueue, "is_empty", ensures=[("iff-no-items", lambda s: iff(s.result, s.self._total_items == 0)),
+                                   ("pure", lambda s: unchanged(s, s.self))])
+fn(FairQueue, "__len__", ensures=[("is-total", lambda s: s.result == s.self._total_items),
+                                  ("pure", lambda s: unchanged(s, s.self))])
+
+
+# ============================================================================ E. QueuedResource and its worker adapter
+# (QueuedResource.__init__ runs Entity.__init__, which stores _clock = None: outside the common typing "entities are
+#  attached"; the wiring queue -> driver -> worker -> resource it establishes is checked natively by the bounded
+#  stand-in `queued-resource-pipeline`, and is the class invariant assumed here)
+cls(Entity, fields={"_crashed": Bool})
+cls(QueuedResource, fields={"_queue": Ref(Queue), "_worker": Ref(_QueuedResourceWorkerAdapter), "_driver": Ref(QueueDriver)},
+    const=["_queue", "_worker", "_driver"],
+    inv=[("wired-queue-driver-worker-resource", lambda o: same(o._queue.egress, o._driver) & same(o._driver.queue, o._queue)
+          & same(o._driver.target, o._worker) & same(o._worker._resource, o))])
+cls(_QueuedResourceWorkerAdapter, fields={"_resource": Ref(QueuedResource)}, const=["_resource"])
+
+fn(Queue, "handle_event", args={"event": ANY_EVENT}, uses=POLICY_IFACE,
+   requires=[lambda s: True if not isinstance(s.event, QueuePollEvent) else s.event.requestor is not None],
+   focus=lambda s: [s.self.policy], ensures=[
+    ("a-poll-hands-over-at-most-one-item", lambda s: True if not isinstance(s.event, QueuePollEvent) else
+        (s.self.policy.g_size == s.old(s.self.policy).g_size - len(s.result))
+        & (len(s.result) == ite(s.old(s.self.policy).g_size > 0, 1, 0))
+        & unchanged(s, s.self, "stats_accepted", "stats_dropped")),
+    ("anything-else-is-offered-once-accepted-or-dropped", lambda s: True if isinstance(s.event, QueuePollEvent) else
+        (s.self.stats_accepted + s.self.stats_dropped == s.old(s.self).stats_accepted + s.old(s.self).stats_dropped + 1)
+        & (s.self.stats_accepted >= s.old(s.self).stats_accepted) & (s.self.stats_dropped >= s.old(s.self).stats_dropped)
+        & (s.self.policy.g_size - s.old(s.self.policy).g_size == s.self.stats_accepted - s.old(s.self).stats_accepted)
+        & iff(s.self.stats_dropped == s.old(s.self).stats_dropped + 1, _full(s.old(s.self.policy))))])
+
+
+def _qr_notify_to_own_driver(s):
+    r = s.result
+    if len(r) == 0:
+        return True
+    e = r[0]
+    return (len(r) == 1) and (isinstance(e, QueueNotifyEvent) and same(e.target, s.self._driver)
+                              & same(e.queue_entity, s.self._queue) & (ns(e.time) == now_ns(s.self._queue)))
+
+
+fn(QueuedResource, "handle_event", args={"event": Ref(Event, variants=[Event])}, uses=POLICY_IFACE,
+   focus=lambda s: [s.self._queue, s.self._queue.policy], ensures=[
+    # every event offered to the resource goes to ITS queue and is accepted or dropped-and-counted exactly once
+    ("offered-once-accepted-or-dropped-and-counted", lambda s:
+        (s.self._queue.stats_accepted + s.self._queue.stats_dropped
+         == s.old(s.self._queue).stats_accepted + s.old(s.self._queue).stats_dropped + 1)
+        & (s.self._queue.stats_accepted >= s.old(s.self._queue).stats_accepted)
+        & (s.self._queue.stats_dropped >= s.old(s.self._queue).stats_dropped)),
+    ("held-grows-iff-accepted", lambda s: s.self._queue.policy.g_size - s.old(s.self._queue.policy).g_size
+        == s.self._queue.stats_accepted - s.old(s.self._queue).stats_accepted),
+    ("dropped-only-when-full", lambda s: iff(s.self._queue.stats_dropped == s.old(s.self._queue).stats_dropped + 1,
+                                              _full(s.old(s.self._queue.policy)))),
+    ("wakes-its-own-driver-iff-accepted-into-empty", lambda s: _qr_notify_to_own_driver(s) and iff(
+        len(s.result) == 1, (s.old(s.self._queue.policy).g_size == 0) & Not(_full(s.old(s.self._queue.policy)))))])
+
+# the worker adapter: the resource's handler (arbitrary code of the subclass) runs exactly once per delivered event, on
+# that very event, and its result is what the engine gets; a crashed resource runs nothing (C06 owns that clause)
+_HQE = stub_of(QueuedResource, "handle_queued_event", returns=Any, modifies="world")
+_HQE.keeps = [("_QueuedResourceWorkerAdapter", "_resource")]
+_HCAP = stub_of(QueuedResource, "has_capacity", returns=Bool, modifies=[], ensures=[])
+
+
+def _calls(name):
+    return [r for r in _pyvc_ctx.cur().ghost_args.get("trace", []) if r[0] == name]
+
+
+def _adapter_hands_over_once(s):
+    calls = _calls("QueuedResource.handle_queued_event")
+    if len(_pyvc_ctx.cur().ghost_args.get("trace", [])) != len(calls):
+        return False
+    if s.old(s.self._resource)._crashed:         # (decided by the path condition: the code tested it)
+        return len(calls) == 0 and s.result is None
+    if len(calls) != 1:
+        return False
+    _, vals, res = calls[0]
+    return same(vals["self"], s.self._resource) & same(vals["event"], s.event) & same(res, s.result)
+
+
+fn(_QueuedResourceWorkerAdapter, "handle_event", args={"event": Ref(Event, variants=[Event])},
+   uses=[(QueuedResource, "handle_queued_event")], inv=False,
+   ensures=[("handed-to-handle_queued_event-exactly-once", _adapter_hands_over_once)])
+
+
+def _adapter_capacity(s):
+    calls = _calls("QueuedResource.has_capacity")
+    if len(calls) != 1:
+        return False
+    _, vals, res = calls[0]
+    return same(vals["self"], s.self._resource) & iff(res, s.result)
+
+
+fn(_QueuedResourceWorkerAdapter, "has_capacity", uses=[(QueuedResource, "has_capacity")], inv=False,
+   ensures=[("is-the-resources-own-answer", _adapter_capacity), ("pure", lambda s: unchanged(s, s.self))])
+
+
+# ============================================================================ F. industrial variants that front a queue
+# ShiftedServer (components/industrial/shift_schedule.py): concurrency follows a shift schedule.
+from happysimulator.components.industrial import shift_schedule as _shift_mod  # noqa: E402
+from happysimulator.components.industrial.shift_schedule import ShiftedServer, ShiftSchedule  # noqa: E402
+import inspect as _inspect  # noqa: E402
+
+cls(ShiftSchedule, fields={})
+stub_of(ShiftSchedule, "capacity_at", returns=Int, modifies=[], ensures=[])
+stub_of(ShiftSchedule, "next_transition_after", returns=Opt(Real), modifies=[], ensures=[
+    lambda s: True if s.result is None else s.result > s.time_s])
+SCHEDULE_IFACE = [(ShiftSchedule, "capacity_at"), (ShiftSchedule, "next_transition_after")]
+cls(ShiftedServer, fields={"schedule": Ref(ShiftSchedule), "service_time": Real, "downstream": OptRef(Entity),
+                           "_current_capacity": Int, "_active": Int, "_processed": Int, "_initialized": Bool},
+    const=["schedule", "service_time"],
+    inv=[("counters-nonneg", lambda o: (o._active >= 0) & (o._processed >= 0)),
+         ("service-time-nonneg", lambda o: o.service_time >= 0)],
+    guarantee=[("processed-monotone", lambda old, new: new._processed >= old._processed)])
+
+fn(ShiftedServer, "has_capacity", ensures=[
+    ("free-worker-iff-in-service-below-shift-capacity", lambda s: iff(s.result, s.self._active < s.self._current_capacity)),
+    ("pure", lambda s: unchanged(s, s.self))])
+
+# The repair fixes/C08_shifted-server-wakes-queue-at-shift-start.diff makes a shift change wake the driver when work
+# waits beside a free worker (finding C08/shift-start-strands-waiting-work).  The clause that needs it is active only
+# once the repair is in the tree.
+SHIFT_WAKE_REPAIRED = "QueueNotifyEvent" in _inspect.getsource(_shift_mod.ShiftedServer._handle_shift_change)
+SHIFT_INIT_REPAIRED = "capacity_at" in _inspect.getsource(_shift_mod.ShiftedServer.handle_event)
+# fixes/C08_shifted-server-boundary-livelock.diff: the next shift change is never scheduled before its boundary (finding
+# C08/shift-boundary-livelock: a boundary that is not a whole number of ns is re-scheduled at the same instant for ever)
+SHIFT_BOUNDARY_REPAIRED = "to_seconds() < next_t" in _inspect.getsource(_shift_mod.ShiftedServer._schedule_next_shift)
+
+
+def _shift_events(s):
+    """(shift-change events, driver wake-ups) in the result; False if anything else is in it"""
+    if not isinstance(s.result, list):
+        return False
+    changes, wakes = [], []
+    for e in s.result:
+        if isinstance(e, QueueNotifyEvent):
+            wakes.append(e)
+        else:
+            changes.append(e)
+    return changes, wakes
+
+
+def _shift_change_post(s):
+    """capacity becomes what the schedule says for now; the next transition (if any) is scheduled exactly once, as a
+    daemon event for this server"""
+    got = _shift_events(s)
+    if got is False:
+        return False
+    changes, _ = got
+    caps, nxt = _calls("ShiftSchedule.capacity_at"), _calls("ShiftSchedule.next_transition_after")
+    if len(caps) != 1 or len(nxt) != 1:
+        return False
+    ok = s.self._current_capacity == caps[0][2]
+    ok = ok & (caps[0][1]["time_s"] * 1000000000 == now_ns(s.self))
+    t = nxt[0][2]
+    if t is None:
+        return ok if len(changes) == 0 else False
+    if len(changes) != 1:
+        return False
+    e = changes[0]
+    ok = ok & same(e.target, s.self) & (e.event_type == "_ShiftChange") & e.daemon & (ns(e.time) >= now_ns(s.self))
+    if SHIFT_BOUNDARY_REPAIRED:
+        # strictly later, and not before the boundary itself: simulated time passes between two shift changes
+        ok = ok & (ns(e.time) > now_ns(s.self)) & (ns(e.time) >= t * 1000000000)
+    return ok
+
+
+def _shift_change_wakes(s):
+    """I-work at the end of the handler: an item waits and a worker is free => a wake-up for the driver is on its way at
+    this very instant (and never more than one: each wake-up becomes a poll)"""
+    got = _shift_events(s)
+    if got is False:
+        return False
+    _, wakes = got
+    need = (s.self._active < s.self._current_capacity) & (s.self._queue.policy.g_size > 0)
+    if len(wakes) == 0:
+        return Not(need)
+    if len(wakes) != 1:
+        return False
+    w = wakes[0]
+    return need & same(w.target, s.self._driver) & same(w.queue_entity, s.self._queue) & (ns(w.time) == now_ns(s.self))
+
+
+fn(ShiftedServer, "_handle_shift_change", uses=SCHEDULE_IFACE + POLICY_IFACE,
+   focus=lambda s: [s.self._queue, s.self._queue.policy], ensures=[
+    ("capacity-follows-schedule-and-next-change-scheduled-once", _shift_change_post),
+    ("work-in-service-and-queue-untouched", lambda s: unchanged(s, s.self, "_active", "_processed")
+        & (s.self._queue.policy.g_size == s.old(s.self._queue.policy).g_size))]
+   + ([("no-time-passes-while-work-waits-beside-a-free-worker", _shift_change_wakes)] if SHIFT_WAKE_REPAIRED else []))
+
+
+def _shifted_result(s):
+    r, ds = s.result, s.self.downstream
+    if ds is None:
+        return r is None
+    if r is None:
+        return False
+    e = r[0]
+    return (len(r) == 1) and (ns(e.time) == now_ns(s.self)) & same(e.target, ds) & (e.event_type == s.event.event_type)
+
+
+fn(ShiftedServer, "handle_queued_event", args={"event": Ref(Event, variants=[Event])},
+   yields=Yields(
+       at_yield=[("service-delay-is-the-service-time", lambda s, y: y == s.self.service_time),
+                 ("in-service-while-the-delay-runs", lambda s, y: s.self._active == s.old(s.self)._active + 1)],
+       stable=[("Entity", "_clock"), ("ShiftedServer", "downstream"), ("Event", "event_type"), ("Event", "context")],
+       rely=[lambda s, b, y: ns(s.self._clock._current_time) >= ns(b.pre(s.self._clock)._current_time),
+             # the unit this job added to _active is still counted when it resumes (other jobs only add / remove their own)
+             lambda s, b, y: s.self._active >= 1]),
+   ensures=[
+    ("completed-exactly-once", lambda s: s.self._processed == s.pre(s.self)._processed + 1),
+    ("leaves-service-exactly-at-completion", lambda s: s.self._active == s.pre(s.self)._active - 1),
+    ("forwards-exactly-once-downstream-at-completion-time", _shifted_result)])
+
+
+def _shifted_offer_post(s):
+    """a request (anything but the server's own shift-change event) is offered to the queue exactly once"""
+    if s.event.event_type == "_ShiftChange":
+        return True
+    q0, q1 = s.old(s.self._queue), s.self._queue
+    ok = (q1.stats_accepted + q1.stats_dropped == q0.stats_accepted + q0.stats_dropped + 1) \
+        & (q1.stats_accepted >= q0.stats_accepted) & (q1.stats_dropped >= q0.stats_dropped) \
+        & (q1.policy.g_size - s.old(s.self._queue.policy).g_size == q1.stats_accepted - q0.stats_accepted) \
+        & s.self._initialized & unchanged(s, s.self, "_active", "_processed")
+    if SHIFT_INIT_REPAIRED and not _truthy_path(s.old(s.self)._initialized):
+        # the first request may arrive after shift boundaries: the capacity in force is the schedule's for NOW
+        caps = _calls("ShiftSchedule.capacity_at")
+        if len(caps) != 1:
+            return False
+        ok = ok & (s.self._current_capacity == caps[0][2]) & (caps[0][1]["time_s"] * 1000000000 == now_ns(s.self))
+    return ok
+
+
+def _truthy_path(b):
+    """truth of a condition the code has already branched on (decided by the path condition)"""
+    return True if b else False
+
+
+fn(ShiftedServer, "handle_event", args={"event": Ref(Event, variants=[Event])}, uses=SCHEDULE_IFACE + POLICY_IFACE,
+   focus=lambda s: [s.self._queue, s.self._queue.policy], ensures=[
+    ("request-offered-once-accepted-or-dropped-and-counted", _shifted_offer_post)])
+
+
+# ---- BalkingQueue (components/industrial/balking.py): a policy wrapper that may refuse an item when the line is long.
+# It refines the QueuePolicy interface except for "accepted iff room": a balked item is refused although there is room,
+# and is counted in `balked` (the Queue in front counts it as dropped as well).
+from happysimulator.components.industrial import balking as _balk_mod  # noqa: E402
+from happysimulator.components.industrial.balking import BalkingQueue  # noqa: E402
+
+cls(BalkingQueue, fields={"_inner": Ref(QueuePolicy), "balk_threshold": Int, "balk_probability": Real, "balked": Int},
+    const=["_inner", "balk_threshold", "balk_probability"],
+    inv=[("probability-in-range", lambda o: (o.balk_probability >= 0) & (o.balk_probability <= 1)),
+         ("balked-nonneg", lambda o: o.balked >= 0)])
+
+fn(BalkingQueue, "push", args={"item": ITEM}, uses=POLICY_IFACE, inv=False, focus=lambda s: [s.self._inner],
+   requires=[lambda s: (s.self.balk_probability >= 0) & (s.self.balk_probability <= 1) & (s.self.balked >= 0)],
+   **_draw_env(_balk_mod), ensures=[
+    ("held-grows-iff-accepted", lambda s: s.self._inner.g_size == s.old(s.self._inner).g_size + ite(s.result, 1, 0)),
+    ("balked-counted-once-and-only-on-a-long-line", lambda s:
+        ((s.self.balked == s.old(s.self).balked) | (s.self.balked == s.old(s.self).balked + 1))
+        & implies(s.self.balked == s.old(s.self).balked + 1,
+                  Not(s.result) & (s.old(s.self._inner).g_size >= s.self.balk_threshold))),
+    ("refused-only-by-balking-or-full-inner-policy", lambda s: implies(
+        Not(s.result), (s.self.balked == s.old(s.self).balked + 1) | _full(s.old(s.self._inner)))),
+    ("short-line-never-balks", lambda s: implies(s.old(s.self._inner).g_size < s.self.balk_threshold,
+        iff(s.result, Not(_full(s.old(s.self._inner)))) & (s.self.balked == s.old(s.self).balked))),
+    ("certain-balking-on-a-long-line", lambda s: implies(
+        (s.self.balk_probability == 1) & (s.old(s.self._inner).g_size >= s.self.balk_threshold),
+        Not(s.result) & (s.self.balked == s.old(s.self).balked + 1)))])
+fn(BalkingQueue, "pop", uses=POLICY_IFACE, inv=False, focus=lambda s: [s.self._inner], ensures=[
+    ("delegates-to-inner", lambda s: iff(s.result is None, s.old(s.self._inner).g_size == 0)
+        & (s.self._inner.g_size == s.old(s.self._inner).g_size - (0 if s.result is None else 1))),
+    ("balked-untouched", lambda s: unchanged(s, s.self, "balked"))])
+fn(BalkingQueue, "is_empty", uses=POLICY_IFACE, inv=False, focus=lambda s: [s.self._inner], ensures=[
+    ("iff-inner-empty", lambda s: iff(s.result, s.self._inner.g_size == 0)), ("pure", lambda s: unchanged(s, s.self))])
+fn(BalkingQueue, "__len__", uses=POLICY_IFACE, inv=False, focus=lambda s: [s.self._inner], ensures=[
+    ("is-inner-len", lambda s: s.result == s.self._inner.g_size), ("pure", lambda s: unchanged(s, s.self))])
